@@ -10,7 +10,7 @@
    byte-exact generator correspondence and judged on the reference machine. *)
 From Coq Require Import ZArith List String Bool.
 From Gigue Require Import Types Bits Isa Enc GenTables Builder BuilderTies Samplers Generator Machine MachineLemmas
-  SplitProofs FragProofs GenLemmas ImageSem CtorSpec C12Defs C12Proofs GenWF GenWFProps Witness.
+  SplitProofs FragProofs GenLemmas ImageSem CtorSpec C12Defs C12Proofs GenWF GenWFProps SliceLemmas FloatSign GenWF2 BodyExec BodyBridge GenWF5 Witness.
 Import ListNotations.
 Open Scope Z_scope.
 
@@ -35,6 +35,38 @@ Proof. exact methods_access_discipline. Qed.
    and a recorded decision script on which the model emits an image *)
 Theorem C03_nonvacuous : exists img, successful wcfg_rimifull wscript_rimifull img.
 Proof. exact witness_rimifull. Qed.
+
+(* PROVED (Layer B for method bodies, GenWF5 / BodyExec / BodyBridge) for every
+   accepted configuration, decision script and emitted image: the random body
+   of every depth-0 method decodes - word by word, with the independent decoder
+   applied to the emitted words - to a block of instructions that the reference
+   machine executes from ANY state in which the data register holds the data
+   base (RIMI full: in the JIT domain), wherever the data section is placed
+   (8-aligned, disjoint from code and stack):
+     - one step per instruction, the pc advancing by 4 each time: no monitor
+       fires (no misaligned / unmapped / code-writing / wrong-domain access,
+       every word is a legal instruction of the variant);
+     - every register outside the usable list (sp, ra, s0-s11, the data
+       register, t3 when reserved) keeps its value;
+     - memory outside the data image [data_lo, data_lo + align(data_size, 8))
+       is untouched; dom and the CFI stack are unchanged.
+   `_partial`: bodies of depth-0 methods only (prologues, epilogues, call
+   stubs and trampolines are executed by the fragment / stub theorems; their
+   composition along the call graph is not proved). *)
+Theorem C03_leaf_bodies_execute_partial : forall c script img,
+  successful c script img ->
+  Forall (fun m => m_depth m = 0 ->
+    exists pro body epi is,
+      m_instrs m = (pro ++ body ++ epi)%list /\ List.length body = Z.to_nat (m_body m) /\
+      Forall2 (fun g i => decode (variant_ext (gv c)) (generate g) = Some i) body is /\
+      forall L s A,
+        placement c L -> env_ok (gv c) L (c_data_reg c) s -> pc s = A -> 0 <= A ->
+        A + 4 * Z.of_nat (List.length is) < W64 ->
+        exists s', exec_at (gv c) L A is s = Next s' /\
+                   pc s' = A + 4 * Z.of_nat (List.length body) /\
+                   frame L (dsz c) (wr c) s s' /\ env_ok (gv c) L (c_data_reg c) s')
+    (im_methods img).
+Proof. exact leaf_bodies_execute. Qed.
 
 (* STILL ONLY STATED (Layer B, execution of whole images): the dynamic reading
    "no executed store lands in the interpreter / JIT image" for arbitrary
@@ -86,6 +118,7 @@ Proof. exact rimi_shadow_discipline. Qed.
 
 Print Assumptions C03_method_accesses.
 Print Assumptions C03_nonvacuous.
+Print Assumptions C03_leaf_bodies_execute_partial.
 Print Assumptions C03_offset_in_bounds_partial.
 Print Assumptions C03_alignment_is_width_partial.
 Print Assumptions C03_no_write_data_reg_partial.
